@@ -54,6 +54,7 @@ type NondetRec struct {
 	Kind string // bool,int32,... string, bytes
 	T    *smt.Term
 	Bs   []*smt.Term // byte-string
+	LenT *smt.Term   // symbolic length of a bounded string (BV16), nil = len(Bs)
 	Conc *int        // concrete value chosen by a fork (nondetRange)
 }
 
@@ -101,6 +102,7 @@ type State struct {
 	NextObj int
 	Frames  []*Frame
 	PC      []*smt.Term
+	Implied []*smt.Term // facts implied by PC (forced decisions); used for syntactic lookups only
 	Nondets []NondetRec
 	Occ     map[string]int
 	Obs     []Observation
@@ -121,6 +123,7 @@ type State struct {
 	markND    int
 	markObs   int
 	markNext  int
+	markImp   int
 	logging   bool
 	Depth     int // number of forks on this path
 	ClockLast *smt.Term
@@ -143,6 +146,7 @@ func (st *State) clone() *State {
 		n.Frames[i] = f.clone()
 	}
 	n.PC = append([]*smt.Term(nil), st.PC...)
+	n.Implied = append([]*smt.Term(nil), st.Implied...)
 	n.Nondets = append([]NondetRec(nil), st.Nondets...)
 	n.Obs = append([]Observation(nil), st.Obs...)
 	n.Occ = make(map[string]int, len(st.Occ))
@@ -174,6 +178,7 @@ func (st *State) beginInstr() {
 	st.markND = len(st.Nondets)
 	st.markObs = len(st.Obs)
 	st.markNext = st.NextObj
+	st.markImp = len(st.Implied)
 	st.decisions = st.decisions[:0]
 	st.scriptPos = 0
 	st.logging = true
@@ -215,6 +220,7 @@ func (st *State) rollback() {
 	st.Nondets = st.Nondets[:st.markND]
 	st.Obs = st.Obs[:st.markObs]
 	st.NextObj = st.markNext
+	st.Implied = st.Implied[:st.markImp]
 }
 
 func (st *State) setObj(id int, v Value) {
